@@ -122,15 +122,24 @@ CLAIMED = {
        "Type::matches, unions on both sides, struct width/depth, tuples, arrays; functions by transitivity of matches, cells by "
        "transitivity of ==; also without any well-formedness hypothesis for first-order cell-free values); "
        "union / array membership; every integer arm regenerated from the sources yields an int, comparisons a bool, float and "
-       "string operators their kind; indexing yields a member of the element type. The evaluator-level statement (every value "
-       "produced by an accepted program inhabits the static type of the instruction that produced it) is NOT proved: for the "
+       "string operators their kind; indexing yields a member of the element type. STAGE 2 (Thm/C01Eval), the evaluator-level "
+       "statement for the FIRST-ORDER EXPRESSION FRAGMENT: a model of the checker (Model/Check: the admissibility tests and "
+       "return_type of literals, variables, array / tuple literals, prefix ! and -, && / ||, all 17 scalar binary operators, "
+       "indexing and tuple access on non-union operands, if / else, blocks, `:=` with shadowing) and the theorem eval_sound / "
+       "program_sound: whenever the model types an expression or statement list, EVERY value the reference evaluator produces for "
+       "it - any fuel, any store, any environment respecting the static types - inhabits that type by contents (mutual induction "
+       "on fuel over expressions, lists, statements and sequences; unions through concat's upper-bound law and matches_sound). "
+       "The checker model is tied to the implementation by its own stream: 1500 generated fragment programs per quick run over "
+       "16 opaque free variables (`p := *(mut T v)`, so nothing folds), half of them ill-typed - same verdict and == static "
+       "type. Outside the fragment (functions, calls, cells, loops, match, if-set, structs, slices, iterators) the "
+       "evaluator-level statement is NOT proved: for the "
        "running code it is decided by the in-crate monitor (feature `verif`), which judges the result of every executed "
        "instruction (~140k per quick run) against that instruction's own return_type() by tag and by contents, on generated "
        "programs, iterator pipelines pulled past exhaustion and host calls; the Spec correspondence runs on the same programs.",
   note="Lean kernel; stage-1 theorems are about the hand models Ty / Val.hasTy / Spec.binScalar (tied by the type, scalar and prog "
        "streams); functions and cells are outside matches_sound_partial; the monitor is code added to /repo under the guard and "
        "exempts the three placeholder-typed helper closures (MAP, FILTER, ITER bodies).",
-  technique="Lean 4 proof (value typing, subtype soundness, operator typing) + in-crate soundness monitor on generated programs", ref="DESIGN.md §6 C01"),
+  technique="Lean 4 proof (value typing, subtype soundness, evaluator-level soundness of a checker model for the first-order fragment) + checker-model correspondence + in-crate soundness monitor on generated programs", ref="DESIGN.md §6 C01"),
  "C02": dict(
   text="Lean 4 theorems about Spec, where everything the implementation can only answer with a panic is the outcome `wrong`: on "
        "the operand kinds the checker admits, no binary / prefix operator, index or slice is `wrong` (only the documented errors); "
